@@ -480,7 +480,22 @@ def extract(tree):
     if len(dl) != 128:
         raise ExtractError("digit_lookup has %d entries" % len(dl))
     g["digitLookup"] = dl
-    b = _norm(csrc.func_body(st, "scan_uint64"))
+    # scan_uint64: parameters and locals canonicalised by role, `{ return x; }` after a condition read as `return x;` - a renamed
+    # variable, added braces or comments are harmless; the statement sequence itself is what the model `scanU64Raw` mirrors
+    b = csrc.func_body(st, "scan_uint64")
+    msig = re.search(r"\bscan_uint64\s*\(\s*const\s+uint8_t\s*\*\s*(\w+)\s*,\s*int32_t\s+(\w+)\s*,\s*uint64_t\s*\*\s*(\w+)\s*,\s*int\s*\*\s*(\w+)\s*\)\s*\{", st)
+    if not msig:
+        raise ExtractError("scan_uint64: signature not recognised")
+    mp = dict(zip(msig.groups(), ("str", "len", "out", "neg")))
+    pstr, plen = re.escape(msig.group(1)), re.escape(msig.group(2))
+    for pat, canon in ((r"const\s+uint8_t\s*\*\s*(\w+)\s*=\s*%s\s*\+\s*%s\s*;" % (pstr, plen), "end"), (r"\buint64_t\s+(\w+)\s*=\s*0\s*;", "accum"),
+                       (r"\bint\s+(\w+)\s*=\s*10\s*;", "base"), (r"\bint\s+(\w+)\s*=\s*0\s*;", "seenadigit"), (r"\bint\s+(\w+)\s*=\s*digit_lookup\s*\[", "digit")):
+        found = set(re.findall(pat, b))
+        if len(found) != 1:
+            raise ExtractError("scan_uint64: local `%s` not identified (%d candidates)" % (canon, len(found)))
+        mp[found.pop()] = canon
+    b = _norm(_rename(b, mp))
+    b = re.sub(r"\) \{ (return [^;{}]*;) \}", r") \1", b)
     m = re.search(r"if \(len > (\d+)\) return 0;", b)
     if not m:
         raise ExtractError("scan_uint64: length limit not found")
